@@ -250,7 +250,7 @@ def run_views(chk, which):
     drv = common.Driver()
     scratch = tempfile.mkdtemp(prefix='verif-wl-', dir='/var/tmp')
     bad, fails = [], []
-    n = chk.n(1500, 8000)
+    n = chk.n(1500, 32000)
     try:
         for it in range(n):
             try:
@@ -276,7 +276,8 @@ def run_views(chk, which):
                     e = oracle_views(wl, d) or oracle_etym(wl, d)
                     if not e:
                         # renumber
-                        col = rng.choice(['ipa', 'concept', 'doculect'])
+                        # also columns whose values are numbers - the value 0 is a value like any other, only the empty value maps to 0
+                        col = rng.choice(['ipa', 'concept', 'doculect', 'cogid'] + (['freq', 'freq', 'note'] if 'freq' in d[0] else []))
                         renumber(wl, col, 'rn')
                         vals = {k: str(d[k][d[0].index(col)]) for k in d if k != 0}
                         nums = {k: wl[k, 'rn'] for k in vals}
